@@ -1,0 +1,12 @@
+//go:build !verif
+
+/*
+ * SPDX-FileCopyrightText: © 2017-2025 Istari Digital, Inc.
+ * SPDX-License-Identifier: Apache-2.0
+ */
+
+package ristretto
+
+func verifPoint(id int, a, b uint64) {}
+
+func verifSample(key uint64, incHits int64, sample []*policyPair, minKey uint64, minHits int64) {}
